@@ -107,6 +107,12 @@ func (v *FnView) callEffects(call *ast.CallExpr, kinds string) []string {
 			}
 		}
 	}
+	// closures handed to the call (Iterate*-style helpers run them synchronously)
+	for _, fn := range v.closureArgs(call) {
+		for _, k := range e.List(fn, kinds) {
+			set[k] = true
+		}
+	}
 	// external keeper table for interface calls with no repo implementation
 	if f := v.callee(call); f != nil {
 		if eff, ok := extEffectByName[f.Name()]; ok {
@@ -211,4 +217,49 @@ func rootIdent(e ast.Expr) *ast.Ident {
 			return nil
 		}
 	}
+}
+
+// closureArgs resolves function-literal arguments of a call (directly, or through
+// a local variable assigned a function literal) to their SSA functions.
+func (v *FnView) closureArgs(call *ast.CallExpr) []*ssa.Function {
+	var lits []*ast.FuncLit
+	for _, a := range call.Args {
+		switch x := stripParens(a).(type) {
+		case *ast.FuncLit:
+			lits = append(lits, x)
+		case *ast.Ident:
+			obj := v.Info.ObjectOf(x)
+			if _, isSig := obj.Type().Underlying().(*types.Signature); !isSig {
+				continue
+			}
+			ast.Inspect(v.Decl.Body, func(n ast.Node) bool {
+				if as, ok := n.(*ast.AssignStmt); ok {
+					for i, l := range as.Lhs {
+						if lid, ok := l.(*ast.Ident); ok && v.Info.ObjectOf(lid) == obj && i < len(as.Rhs) {
+							if fl, ok := as.Rhs[i].(*ast.FuncLit); ok {
+								lits = append(lits, fl)
+							}
+						}
+					}
+				}
+				return true
+			})
+		}
+	}
+	if len(lits) == 0 {
+		return nil
+	}
+	root := v.W.Prog.FuncValue(v.Obj)
+	if root == nil {
+		return nil
+	}
+	var out []*ssa.Function
+	for _, fn := range withAnon(root) {
+		for _, fl := range lits {
+			if fn.Pos() == fl.Type.Func || fn.Pos() == fl.Pos() {
+				out = append(out, fn)
+			}
+		}
+	}
+	return out
 }
